@@ -28,7 +28,7 @@ class C10(Prop):
     REQUIRED_CLASSES = ["nt_must_succeed", "nt_must_fail", "nt_open", "failure", "empty_buffer", "prefix_reparsed"]
 
     def budget(self, tier):
-        return {"workers": 10, "examples": 500 if tier == "quick" else 20000}
+        return {"workers": 10, "examples": 1000 if tier == "quick" else 20000}
 
     def fuzz_plan(self, tier):
         return [fuzzplan.parse_plan(tier, 300000, 6000000, procs_quick=6, procs_thorough=6)]
@@ -41,13 +41,13 @@ class C10(Prop):
         return st.fixed_dictionaries({
             "jv": docs,
             "rseed": st.integers(0, 2 ** 32 - 1),
-            "bom": st.integers(0, 5).map(lambda x: x == 0),
+            "bom": gens.chance(6),
             "lead": wsb,
             "tail": st.sampled_from(TAILS),
             "edit": st.one_of(st.none(), st.none(), st.tuples(
                 st.sampled_from(["delete", "insert", "replace", "dup", "swap", "truncate"]),
                 st.integers(0, 10 ** 6), st.sampled_from(list(EDIT_ALPHABET))).map(list)),
-            "empty": st.integers(0, 40).map(lambda x: x == 0),
+            "empty": gens.chance(41),
         })
 
     def run_case(self, lib, case, stats):
